@@ -149,7 +149,9 @@ func c19Wrap(r *rand.Rand, text string, levels int, allowSeq bool) (string, int,
 		var out []string
 		before, after := r.Intn(3), r.Intn(3)
 		kind := "map"
-		if allowSeq && r.Intn(3) == 0 {
+		if allowSeq && lv == 0 && r.Intn(8) == 0 {
+			kind = "embedded" // the rules are kept as text in a block scalar (ConfigMap style)
+		} else if allowSeq && r.Intn(3) == 0 {
 			kind = "seq"
 			if r.Intn(3) == 0 {
 				kind = "item" // the content is a list item itself (a list in a list when the content is a rule list)
@@ -171,15 +173,32 @@ func c19Wrap(r *rand.Rand, text string, levels int, allowSeq bool) (string, int,
 			dl += before + 1
 			dc += ind
 			shape = append(shape, fmt.Sprintf("map(ind=%d,before=%d,after=%d)", ind, before, after))
+		case "embedded":
+			out = append(out, key+": |")
+			for _, l := range lines {
+				if l == "" {
+					out = append(out, "")
+				} else {
+					out = append(out, strings.Repeat(" ", ind)+l)
+				}
+			}
+			dl += before + 1
+			dc += ind
+			shape = append(shape, fmt.Sprintf("seq-embedded-text(ind=%d,before=%d,after=%d)", ind, before, after))
 		case "item":
 			// key:
 			//   - other: 1        (optional earlier item)
 			//   -
 			//       <content>
 			out = append(out, key+":")
-			pre := r.Intn(2)
-			if pre == 1 {
+			pre := r.Intn(3)
+			switch pre {
+			case 1:
 				out = append(out, strings.Repeat(" ", ind)+"- other: 1")
+			case 2:
+				// (an earlier item that is a plain scalar)
+				out = append(out, strings.Repeat(" ", ind)+"- justtext")
+				pre = 1
 			}
 			out = append(out, strings.Repeat(" ", ind)+"-")
 			cind := ind + 1 + r.Intn(4)
@@ -199,9 +218,13 @@ func c19Wrap(r *rand.Rand, text string, levels int, allowSeq bool) (string, int,
 			//   - inner:
 			//       <content>
 			out = append(out, key+":")
-			pre := r.Intn(2)
-			if pre == 1 {
+			pre := r.Intn(3)
+			switch pre {
+			case 1:
 				out = append(out, strings.Repeat(" ", ind)+"- other: 1")
+			case 2:
+				out = append(out, strings.Repeat(" ", ind)+"- justtext")
+				pre = 1
 			}
 			out = append(out, strings.Repeat(" ", ind)+"- inner"+fmt.Sprint(lv)+":")
 			cind := ind + 2 + 1 + r.Intn(3)
